@@ -78,13 +78,21 @@ def make_tensor(case):
     if kind == "int":
         a = nprs.randint(-2, 3, size=shape).astype(float)
         return a + 1j * nprs.randint(-2, 3, size=shape) if cplx else a
-    if kind == "lowrank":
+    if kind in ("lowrank", "degenerate"):
         ql, rl = case["ql"], case["rl"]
         dq = [shape[a] for a in ql]
         dr = [shape[a] for a in rl]
         m, n = prod(dq), prod(dr)
         r = max(1, min(m, n) // 2)
-        mat = rnd((m, r)) @ rnd((r, n))
+        if kind == "degenerate":
+            # singular values in exactly degenerate groups (3,3,2,2,1,1,...): a bond cap has to cut through a group
+            k = min(m, n)
+            qa = np.linalg.qr(rnd((m, k)))[0]
+            qb = np.linalg.qr(rnd((n, k)))[0]
+            sv = np.array([float(3 - (j // 2) % 3) for j in range(k)])
+            mat = (qa * sv) @ qb.conj().T
+        else:
+            mat = rnd((m, r)) @ rnd((r, n))
         tp = mat.reshape(tuple(dq + dr))
         out = np.empty(shape, dtype=tp.dtype)
         legs = ql + rl
@@ -176,7 +184,7 @@ class C11(Prop):
     def _mk(self, rng, shape, ql, rl, content=None):
         n = len(shape)
         if content is None:
-            content = rng.choice(["normal", "normal", "normal", "lowrank", "lowrank", "int", "zero", "ones"])
+            content = rng.choice(["normal", "normal", "normal", "lowrank", "lowrank", "int", "zero", "ones", "degenerate", "degenerate"])
         return {"kind": "split", "shape": list(shape), "ql": list(ql), "rl": list(rl),
                 "content": content, "cplx": rng.random() < 0.6, "seed": rng.randrange(10 ** 6),
                 "as_list": rng.random() < 0.4,
